@@ -120,7 +120,8 @@ Definition readBulk (s : rd) (n : net) : bulk_res :=
             | Some (Some len, s2, n2) =>
                 if (len <? 0) || (len >? max_bulk) then BErr
                 else
-                  match readByteN (Z.to_nat len) s2 n2 with
+                  (* more than the network still holds can only end in EOF: cap the request *)
+                  match readByteN (Z.to_nat (Z.min len (Z.of_nat (length (stream n2)) + 1))) s2 n2 with
                   | None => BErr
                   | Some (s3, n3) =>
                       let v := win s3 in
